@@ -661,6 +661,11 @@ class Series:
     def notna(self):
         return Series([not (v is None or np._isnan1(v)) for v in self.vals])
 
+    def isna(self):
+        return Series([(v is None or np._isnan1(v)) for v in self.vals])
+
+    notnull, isnull = notna, isna
+
     def shift(self, periods=1, fill_value=None):
         if periods < 0:
             raise ModelGap("Series.shift with negative periods")
@@ -690,6 +695,15 @@ class _Loc:
 
     def __setitem__(self, key, value):
         sel, col = key
+        if isinstance(sel, Series) or (isinstance(sel, ndarray) and sel._dt == "b"):
+            # boolean row mask
+            flags = list(sel.vals) if isinstance(sel, Series) else list(sel.flat)
+            if len(flags) != len(self.df):
+                raise IndexError("Boolean index has wrong length")
+            for i, f in enumerate(flags):
+                if _t(f):
+                    self.df.cols[col][i] = value
+            return
         labels = sel.vals if isinstance(sel, _Index) else list(sel)
         pos = {lab: i for i, lab in enumerate(self.df._index)}
         for lab in labels:
